@@ -391,7 +391,7 @@ func (s *server) RoundTrip(req *http.Request) (*http.Response, error) {
 		} else if c := s.crs[name]; c != nil {
 			st.queue = append(st.queue, event{Type: "ADDED", ver: c.ver(), raw: frame("ADDED", c.json())})
 		}
-		s.w.res.Extra["watch-opened"]++
+		s.w.res.AddExtra("watch-opened", 1)
 		s.mu.Unlock()
 		resp := respond(req, 200, nil)
 		resp.Body = &body{PipeReader: pr, s: s, st: st}
@@ -406,7 +406,7 @@ func (s *server) RoundTrip(req *http.Request) (*http.Response, error) {
 		}
 		s.mu.Lock()
 		defer s.mu.Unlock()
-		s.w.res.Extra["status-patches"]++
+		s.w.res.AddExtra("status-patches", 1)
 		if s.failPatch > 0 {
 			s.failPatch--
 			s.w.res.Fault("status-patch.refused")
@@ -421,6 +421,6 @@ func (s *server) RoundTrip(req *http.Request) (*http.Response, error) {
 		s.touchLocked(name)
 		return respond(req, 200, c.json()), nil
 	}
-	s.w.res.Extra["unexpected-request"]++
+	s.w.res.AddExtra("unexpected-request", 1)
 	return respond(req, 404, status(404, "NotFound", "simulated apiserver: no such path "+req.Method+" "+req.URL.String())), nil
 }
